@@ -621,14 +621,14 @@ class History:
         return res
 
     def drop_blob(self, node_idx, out_idx):
-        """cache fault: the CAS blob holding the bytes of a FILE output as they sit in the workspace now is lost"""
+        """cache fault: the CAS blob holding the bytes of an output as they sit in the workspace now is lost -- of a FILE output,
+        or of the file INSIDE a directory output (the tree blob stays: the restore finds the tree and fails on a nested file; for the
+        model a directory output is one blob, lost either way)"""
         n = self.snap["nodes"][node_idx]
         kind, path = n["outs"][out_idx]
-        if kind != "file":
-            return False
         fp = full(n["pkg"], path)
         try:
-            data = open(os.path.join(self.ws, fp), "rb").read()
+            data = open(os.path.join(self.ws, fp, "data") if kind == "dir" else os.path.join(self.ws, fp), "rb").read()
         except OSError:
             return False
         for d in self.cache_dirs("cas"):
